@@ -70,7 +70,7 @@ Proof.
   intros [WS CO] NE NS H. simpl in H.
   destruct (gets st d) as [ds|] eqn:GD; cbn [bind] in H; [|discriminate].
   unfold gets in H. rewrite NS in H. cbn [bind] in H.
-  assert (Nat.eqb d s = false) as EB by (apply Nat.eqb_neq; auto). rewrite EB in H.
+
   destruct ds as [c0|m]; [discriminate|].
   pose proof (gets_lt _ _ _ GD) as LD. apply gets_ok in GD.
   assert (s < length st)%nat as LS by (apply nth_error_Some; congruence).
@@ -163,7 +163,7 @@ Lemma multi_copy_remove_multi st d s ps i st' m o :
   forall c, tot_at st' c d + tot_at st' c s == tot_at st c s + rows_tot (mpkg m) (kept_rows sel idx (mrows m)) c.
 Proof.
   intros [WS CO] NE ND NS LEN H. simpl in H. unfold gets in H. rewrite ND, NS in H. cbn [bind] in H.
-  assert (Nat.eqb d s = false) as EB by (apply Nat.eqb_neq; auto). rewrite EB in H.
+
   assert (d < length st)%nat as LD by (apply nth_error_Some; congruence).
   assert (s < length st)%nat as LS by (apply nth_error_Some; congruence).
   assert (In (MS m) st) as ID by (eapply nth_error_In; eauto).
@@ -204,4 +204,127 @@ Proof.
     rewrite !GE. cbn [row_selected].
     rewrite (value_row_same_length (mrows o) (length (mrows m)) k) by auto.
     apply swap_cells. apply LR; auto.
+Qed.
+
+(* ---------- exclude=True ---------- *)
+Lemma nthq_keep_at (v : vec) idx j :
+  nthq (keep_at v idx) j = if existsb (Nat.eqb j) idx && Nat.ltb j (length v) then nthq v j else 0.
+Proof. unfold keep_at. rewrite nthq_set_at, vzero_length, nthq_vzero. reflexivity. Qed.
+
+Lemma excl_cells pk idx (d o : vec) c : length d = length o ->
+  getc pk (set_at o idx d) c + getc pk (keep_at o idx) c == getc pk o c + getc pk (keep_at d idx) c.
+Proof.
+  intros L. unfold getc. destruct (index_of c (cas pk)) as [j|]; [|lra].
+  rewrite nthq_set_at, !nthq_keep_at, L.
+  destruct (existsb (Nat.eqb j) idx && Nat.ltb j (length o)); lra.
+Qed.
+Lemma getc_set_at_self pk (d : vec) idx c : getc pk (set_at d idx d) c = getc pk d c.
+Proof.
+  unfold getc. destruct (index_of c (cas pk)) as [j|]; [|reflexivity].
+  rewrite nthq_set_at. destruct (existsb (Nat.eqb j) idx && Nat.ltb j (length d)); reflexivity.
+Qed.
+
+(* what the receiver keeps with exclude: its own content in the excluded cells *)
+Definition excluded_rows (sel : option nat) (idx : list nat) (rows : list vec) : list vec :=
+  mapi (fun k r => if row_selected sel k then keep_at r idx else vzero (length r)) rows.
+
+Lemma multi_copy_remove_multi_exclude st d s ps i st' m o :
+  wf_store st -> d <> s -> i <> IdAll -> nth_error st d = Some (MS m) -> nth_error st s = Some (MS o) ->
+  length (mrows o) = length (mrows m) ->
+  step st (OCopyFlowM d s ps i true true) = Ok st' ->
+  exists idx sel, ids_index (mpkg m) i = Ok idx /\ phase_sel (mphases m) ps = Ok sel /\
+  forall c, tot_at st' c d + tot_at st' c s == tot_at st c s + rows_tot (mpkg m) (excluded_rows sel idx (mrows m)) c.
+Proof.
+  intros [WS CO] NE NA ND NS LEN H. simpl in H. unfold gets in H. rewrite ND, NS in H. cbn [bind] in H.
+  assert (d < length st)%nat as LD by (apply nth_error_Some; congruence).
+  assert (s < length st)%nat as LS by (apply nth_error_Some; congruence).
+  assert (In (MS m) st) as ID by (eapply nth_error_In; eauto).
+  assert (In (MS o) st) as IS by (eapply nth_error_In; eauto).
+  pose proof (WS _ ID) as [WPm [WLm [LEm _]]]. pose proof (WS _ IS) as [WPo [WLo _]].
+  pose proof (CO _ _ ID IS) as CC. simpl in WPm, WLm, LEm, WPo, WLo, CC.
+  unfold copy_flow_m in H. cbn [spkg] in H.
+  destruct (same_ids (mpkg m) (mpkg o)) eqn:SI; cbn [negb] in H; [|discriminate].
+  pose proof (same_ids_cas _ _ SI CC) as ECAS.
+  destruct (ids_index (mpkg m) i) as [idx|]; cbn [bind] in H; [|discriminate].
+  destruct (phase_sel (mphases m) ps) as [sel|]; cbn [bind] in H; [|discriminate].
+  exists idx, sel. split; [reflexivity|]. split; [reflexivity|].
+  assert (forall r k, getc (mpkg o) r k = getc (mpkg m) r k) as GE by (intros; apply getc_cas; auto).
+  assert (forall k, (k < length (mrows m))%nat -> length (nth k (mrows m) []) = length (nth k (mrows o) [])) as LR.
+  { intros k K. rewrite (WLm (nth k (mrows m) [])) by (apply nth_In; auto).
+    rewrite (WLo (nth k (mrows o) [])) by (apply nth_In; lia). unfold psize. rewrite ECAS. reflexivity. }
+  cbv zeta in H.
+  destruct sel as [pi|].
+  1: destruct (Nat.ltb pi (length (mrows o))) eqn:LT; cbn [orb negb andb bind] in H; [|discriminate].
+  all: cbn [bind] in H; cbn iota in H; inversion H; subst st'; clear H; intros c.
+  all: rewrite tot_at_upd_other by auto; rewrite tot_at_upd_same by auto;
+    rewrite tot_at_upd_same by (rewrite upd_length; auto);
+    unfold tot_at; rewrite NS; unfold tot; cbn [spkg srows fst snd mpkg mrows];
+    rewrite !rows_tot_seq; unfold excluded_rows; rewrite !mapi_length; rewrite LEN; rewrite !qsum_plus;
+    apply qsum_map_ext; intros k IK; apply in_seq in IK;
+    assert (k < length (mrows m))%nat as K by lia;
+    rewrite !(mapi_nth (A:=vec) (B:=vec) _ _ k (@nil Q) (@nil Q)) by (rewrite ?mapi_length; lia);
+    rewrite (value_row_same_length (mrows o) (length (mrows m)) k) by auto;
+    rewrite !GE.
+  all: destruct i; [contradiction| |].
+  all: cbn iota beta.
+  all: cbn [row_selected].
+  all: try match goal with |- context [Nat.eqb ?p ?kk] => destruct (Nat.eqb p kk) end.
+  all: try (apply excl_cells; apply LR; auto).
+  all: rewrite !getc_vzero; lra.
+Qed.
+
+(* single-phase source whose phase the selector hits (or no selector), exclude *)
+Lemma multi_copy_remove_single_exclude st d s ps i st' m o :
+  wf_store st -> d <> s -> i <> IdAll -> nth_error st d = Some (MS m) -> nth_error st s = Some (SS o) ->
+  step st (OCopyFlowM d s ps i true true) = Ok st' ->
+  exists idx sel opi, ids_index (mpkg m) i = Ok idx /\ phase_sel (mphases m) ps = Ok sel /\
+    phase_index (cphase o) (mphases m) = Ok opi /\
+  ((match sel with None => true | Some pi => Nat.eqb pi opi end) = true ->
+   forall c, tot_at st' c d + tot_at st' c s ==
+             tot_at st c s + rows_tot (mpkg m) (upd (mrows m) opi (keep_at (nth opi (mrows m) []) idx)) c).
+Proof.
+  intros [WS CO] NE NA ND NS H. simpl in H. unfold gets in H. rewrite ND, NS in H. cbn [bind] in H.
+  assert (d < length st)%nat as LD by (apply nth_error_Some; congruence).
+  assert (s < length st)%nat as LS by (apply nth_error_Some; congruence).
+  assert (In (MS m) st) as ID by (eapply nth_error_In; eauto).
+  assert (In (SS o) st) as IS by (eapply nth_error_In; eauto).
+  pose proof (WS _ ID) as [WPm [WLm [LEm _]]]. pose proof (WS _ IS) as [WPo [WLo _]].
+  pose proof (CO _ _ ID IS) as CC. simpl in WPm, WLm, LEm, WPo, WLo, CC.
+  unfold copy_flow_m in H. cbn [spkg] in H.
+  destruct (same_ids (mpkg m) (cpkg o)) eqn:SI; cbn [negb] in H; [|discriminate].
+  pose proof (same_ids_cas _ _ SI CC) as ECAS.
+  destruct (ids_index (mpkg m) i) as [idx|]; cbn [bind] in H; [|discriminate].
+  destruct (phase_sel (mphases m) ps) as [sel|]; cbn [bind] in H; [|discriminate].
+  cbv zeta in H.
+  destruct (phase_index (cphase o) (mphases m)) as [opi|] eqn:PI; cbn [bind] in H; [|discriminate].
+  exists idx, sel, opi. split; [reflexivity|]. split; [reflexivity|]. split; [reflexivity|]. intros HIT c.
+  pose proof (phase_index_lt _ _ _ PI) as LO. rewrite LEm in LO.
+  assert (length (crow o) = psize (cpkg o)) as LC by (apply WLo; left; auto).
+  assert (length (nth opi (mrows m) []) = length (crow o)) as LN.
+  { rewrite (WLm (nth opi (mrows m) [])) by (apply nth_In; auto). rewrite LC. unfold psize. rewrite ECAS. reflexivity. }
+  rewrite HIT in H. cbn [andb] in H. cbn iota in H. inversion H; subst st'. clear H.
+  rewrite tot_at_upd_other by auto. rewrite tot_at_upd_same by auto.
+  rewrite tot_at_upd_same by (rewrite upd_length; auto).
+  unfold tot_at. rewrite NS. unfold tot. cbn [spkg srows fst snd mpkg mrows cpkg crow].
+  rewrite !rows_tot_cons, !rows_tot_nil.
+  assert (forall r k, getc (cpkg o) r k = getc (mpkg m) r k) as GE by (intros; apply getc_cas; auto).
+  rewrite !GE.
+  assert (rows_tot (mpkg m)
+            (mapi (fun k row => if row_selected sel k then set_at row idx (nth k (mrows m) []) else row)
+                  (upd (mrows m) opi (crow o))) c
+          == rows_tot (mpkg m) (upd (mrows m) opi (set_at (crow o) idx (nth opi (mrows m) []))) c) as E1.
+  { rewrite !rows_tot_seq. rewrite mapi_length, !upd_length. apply qsum_map_ext. intros k IK. apply in_seq in IK.
+    rewrite (mapi_nth (A:=vec) (B:=vec) _ _ k (@nil Q) (@nil Q)) by (rewrite upd_length; lia).
+    destruct (Nat.eq_dec opi k) as [E|N].
+    - subst k.
+      assert (forall X, nth opi (upd (mrows m) opi X) [] = X) as NU.
+      { intros X. apply nth_error_nth. apply nth_error_upd_same. auto. }
+      rewrite !NU. assert (row_selected sel opi = true) as RS.
+      { destruct sel as [pi|]; simpl in *; auto. }
+      rewrite RS. reflexivity.
+    - rewrite !(nth_upd_other_gen _ k opi) by auto.
+      destruct (row_selected sel k); [rewrite getc_set_at_self|]; reflexivity. }
+  rewrite E1. rewrite !rows_tot_upd by auto.
+  destruct i; [contradiction| |]; cbn iota beta;
+    pose proof (excl_cells (mpkg m) idx (nth opi (mrows m) []) (crow o) c LN) as X; lra.
 Qed.
